@@ -295,17 +295,18 @@ static void e2eSession(vh::Rng& r, int integ) {
     std::vector<std::vector<bool>> used(wins.size());
     for (size_t k2 = 0; k2 < wins.size(); ++k2) used[k2].assign(wins[k2].idx.size(), false);
     for (int j = 0; j < (int)ws.size(); ++j) {
-        for (auto& c : crossings(ws[j], t0s, tDone - 1e-6)) {
+        for (auto& c : crossings(ws[j], t0s, I.getAdvancedTime() + 1e-6)) {
             const int dirBit = c.second > 0 ? 2 : 1;
             if (!(ws[j].mask & dirBit)) continue;
-            ++ncross;
+            const bool mustBeReported = c.first <= tDone - 2e-3;   // later ones may legitimately still be pending
+            if (mustBeReported) ++ncross;
             bool found = false;
             const double slack = 1e-9 * std::max(1.0, c.first);
             for (size_t k2 = 0; k2 < wins.size() && !found; ++k2)
                 for (size_t i = 0; i < wins[k2].idx.size(); ++i)
                     if (wins[k2].idx[i] == j && !used[k2][i] && wins[k2].lo - slack <= c.first && c.first <= wins[k2].hi + slack
                         && wins[k2].trans[i] == dirBit) { used[k2][i] = true; found = true; break; }
-            if (!found) { missed += 1; std::fprintf(stderr, "MISSED witness %d (kind %d a=%.17g b=%.17g mask %d) crossing at %.17g dir %d, integrated to %.17g\n", j, ws[j].kind, ws[j].a, ws[j].b, ws[j].mask, c.first, c.second, tDone); }
+            if (!found && mustBeReported) { missed += 1; std::fprintf(stderr, "MISSED witness %d (kind %d a=%.17g b=%.17g mask %d) crossing at %.17g dir %d, integrated to %.17g\n", j, ws[j].kind, ws[j].a, ws[j].b, ws[j].mask, c.first, c.second, tDone); }
         }
     }
     for (size_t k2 = 0; k2 < wins.size(); ++k2) for (size_t i = 0; i < used[k2].size(); ++i) if (!used[k2][i]) spurious += 1;
@@ -402,7 +403,7 @@ static void tsSession(vh::Rng& r, int integ) {
     double trigBad = 0;
     { std::vector<double> got; for (auto& c : log) if (c.kind == 100) got.push_back(c.t);
       const double tol = I.getAccuracyInUse() * B.system.getDefaultTimeScale() * w.window;
-      if (w.a < tDone - 1e-6) { if (got.size() != 1 || !(got[0] >= w.a - 1e-12 && (isCP || got[0] - w.a <= tol))) trigBad = 1; }
+      if (w.a < tDone - 2e-3) { if (got.size() != 1 || !(got[0] >= w.a - 1e-12 && (isCP || got[0] - w.a <= tol))) trigBad = 1; }
       else if (got.size() > 1) trigBad = 1; }
     vh::P("handlers_in_time_order", fam + ".order", order, 0);
     vh::P("scheduled_exactly_at_time", fam + ".scheduled_exact", schedBad, 0);
